@@ -79,4 +79,6 @@ def bootstrap(reexec=True):
     here = Path(xsdata.__file__).resolve()
     if REPO not in here.parents:
         harness_error(f"xsdata imported from {here}, expected under {REPO}")
+    import logging
+    logging.getLogger("xsdata").setLevel(logging.CRITICAL)      # parser chatter ("Unassigned parsed object")
     return ensure_shims()
